@@ -22,7 +22,10 @@ CLAIMS = {
             "with any number of crashes every index is outstanding, completed or crash-reported exactly once. Whole system, --dist load (controller + workers + channels, every "
             "interleaving, any number of earlier crashes/replacements/re-queues): the book of a live worker is completions in flight ++ the test it executes ++ what it holds, and when "
             "the controller handles the death notice of a worker that died inside test i the crash report it publishes is about test i of the agreed collection "
-            "(C03_sys_load_crash_item; a seventh invariant layer about dead workers with a ghost history component)",
+            "(C03_sys_load_crash_item; a seventh invariant layer about dead workers with a ghost history component); and, for every execution without an undecodable message, the ledger "
+            "pool + books + handled completions + crash items = collection + re-queued in every reachable state, and at the end of a session (no stop reason, budget not exceeded) the tests "
+            "completed by the workers ++ crash items = collection ++ re-queued items, pool empty, nobody registered: every other test ran exactly once and the run did not end before "
+            "(C03_sys_load_ledger_with_crashes, C03_sys_load_accounting_at_end; non-vacuity replayed by the kernel from a simulated crash schedule)",
             "contract refinement + ledger invariant with crash ghost; whole-system invariant by induction over the steps of the composed transition system (Lean 4) ; differential correspondence incl. crash/replacement sequences; the system model replays every simulated step"),
     "C05": ("Lean theorems over the two-thread worker model, for every interleaving of receiver steps (put/steal/shutdown, also behind the marker) with "
             "main-thread steps: executed/held/queued tests form a subsequence of the received stream whose missing elements are exactly the replied ones; "
@@ -38,8 +41,10 @@ CLAIMS = {
             "a shutdown signal and at most one shutdown per worker; other modes: correspondence + wire monitors",
             "contract invariants NoAfter/SentSync/Nodup/Bounded preserved by every act + refinement, lifted to the DSession loop by induction over events (Lean 4) ; differential correspondence of all six schedulers with wire monitors"),
     "C15": ("Lean theorems: mark_test_pending inserts at the front of the pool; per index #completed + #crash-reported = 1 + #re-queued when the ledger is empty; "
-            "unsupported modes raise NotImplementedError",
-            "ledger invariant with re-queue ghost (Lean 4) ; differential correspondence with markPending ops"),
+            "unsupported modes raise NotImplementedError. Whole system (--dist load, every execution without an undecodable message): at the end of a session without stop reason and "
+            "within the budget, tests completed by the workers ++ crash items = collection ++ re-queued items - a re-queued crashed test runs again exactly once and the run still ends "
+            "with nothing outstanding (C03_sys_load_accounting_at_end)",
+            "ledger invariant with re-queue ghost; whole-system invariant by induction over the composed transition system (Lean 4) ; differential correspondence with markPending ops; whole-system simulation with a re-queuing crash hook"),
     "C13": ("Lean theorems over every option record: -n0 is a plain run; -nK gives min(K, maxprocesses) popen workers in load mode unless a mode is named; "
             "distribution iff a mode and an environment; --pdb is rejected exactly when it meets distribution and turns -n auto/logical into 0; --collect-only never installs the "
             "distributed session; after the worker's setup_config nothing distributes, loops or debugs; 'N*spec' expands to N copies (int(str(N)) = N proved)",
